@@ -180,6 +180,19 @@ class Grid:
                 c[nm] = val
             yield c
 
+    def sparse(self, case):
+        """Only the slots that differ from their default (witness form)."""
+        d = self.default_case()
+        return {k: v for k, v in case.items() if k not in d or d[k] != v}
+
+    def wit(self, case):
+        return {"case": self.sparse(case)}
+
+    def wsimplify(self, w):
+        full = self.default_case()
+        full.update(w["case"])
+        return [self.wit(c) for c in self.simplify(full)]
+
     def simplify(self, case):
         """One-step simplifications of a case (ordered): reset a slot, delete a token."""
         out = []
